@@ -1383,6 +1383,58 @@ def _is_subclass_of(ctx: Ctx, mod: Module, c: ast.ClassDef, roots, depth=0):
     return False
 
 
+def _holder_is_per_call(ctx: Ctx, m, method, parents) -> bool:
+    """`method` is a method of a class K of module m (not the evaluator, not a lexer/parser/generator); every construction K(...)
+    in the package sits in a function body as the subject of a `with`, the value of a local assignment, or the receiver of an
+    immediate attribute access - and that local is never returned, yielded or stored elsewhere.  At least one construction exists."""
+    k = parents.get(method)
+    if not isinstance(k, ast.ClassDef) or k.name == "ExperimentEvaluator" or k.name == "PythonCodeGen" \
+            or _is_subclass_of(ctx, m, k, {"Lexer", "Parser"}) or k.bases:
+        return False
+    sites = 0
+    for m2 in ctx.src.own_modules():
+        par2 = {}
+        for node in ast.walk(m2.tree):
+            for ch in ast.iter_child_nodes(node):
+                par2[ch] = node
+        for c in ast.walk(m2.tree):
+            if not (isinstance(c, ast.Call) and dotted(c.func) and dotted(c.func).split(".")[-1] == k.name):
+                continue
+            sites += 1
+            fn2, p = None, c
+            while p in par2:
+                p = par2[p]
+                if isinstance(p, (ast.FunctionDef, ast.AsyncFunctionDef)):
+                    fn2 = p
+                    break
+                if isinstance(p, (ast.ClassDef, ast.Lambda)):
+                    return False
+            if fn2 is None or any(c is d_ or any(c is x for x in ast.walk(d_)) for d_ in fn2.args.defaults + [d for d in fn2.args.kw_defaults if d]):
+                return False
+            up = par2.get(c)
+            local = None
+            if isinstance(up, ast.withitem) and up.context_expr is c:
+                local = up.optional_vars.id if isinstance(up.optional_vars, ast.Name) else None
+                if up.optional_vars is not None and local is None:
+                    return False
+            elif isinstance(up, ast.Assign) and len(up.targets) == 1 and isinstance(up.targets[0], ast.Name):
+                local = up.targets[0].id
+            elif isinstance(up, ast.Attribute) and up.value is c:
+                local = None
+            else:
+                return False
+            if local is not None:
+                for x in walk_no_nested(fn2):
+                    # the local may be read through attributes (session.parser.parse(...)); it must not be handed on as a value
+                    if isinstance(x, ast.Name) and x.id == local and isinstance(x.ctx, ast.Load):
+                        u = par2.get(x)
+                        if not (isinstance(u, ast.Attribute) and u.value is x) and not (isinstance(u, ast.withitem) and u.context_expr is x):
+                            return False
+                if any(isinstance(x, (ast.Global, ast.Nonlocal)) and local in x.names for x in walk_no_nested(fn2)):
+                    return False
+    return sites > 0
+
+
 def rule_fresh_per_parse(ctx: Ctx, rid="C17.FRESH-PER-PARSE", kinds=("Lexer", "Parser", "PythonCodeGen")):
     """Every Lexer / Parser / PythonCodeGen object is created inside a function, bound to a local
     (or used inline) and does not escape to module, class, default-argument or cached storage."""
@@ -1457,6 +1509,12 @@ def rule_fresh_per_parse(ctx: Ctx, rid="C17.FRESH-PER-PARSE", kinds=("Lexer", "P
                         rets = [fn.body]
                     if any(_carried(rv) for rv in rets):
                         escaped = f"created inside a @{dn} function and part of what it returns: the object is kept and shared"
+            if escaped and escaped.endswith("(instance)") and _holder_is_per_call(ctx, m, fn, parents):
+                # stored on an object of a small holder class (a parse session, a context manager) whose instances are themselves
+                # built inside a function and used as a `with` subject or a local: the holder lives as long as that call
+                ctx.rep.ok(rid, con, "constructed per call and kept on a holder object that is itself built per call and kept local",
+                           site=m.site(node))
+                continue
             if escaped:
                 ctx.rep.bad(rid, con, f"a {cname} object escapes its call: {escaped}", site=m.site(node), text=f"{cname}() {escaped}")
             else:
